@@ -49,7 +49,7 @@ def run_child(args):
                       known_keys=verdict.load_known(args.prop).keys())
     rec.mode = os.environ.get('VERIF_MODE', 'pure')
     import faulthandler
-    faulthandler.dump_traceback_later(budget * 4 + 120, exit=True)   # stuck case: show where, then die
+    faulthandler.dump_traceback_later(budget * 6 + 240, exit=True)   # stuck case: show where, then die
     try:
         if args.replay:
             w = json.load(open(args.replay))
@@ -123,7 +123,7 @@ def main():
         running = []
         retried = {}
         maxpar = int(os.environ.get('VERIF_JOBS', os.cpu_count() or 4))
-        per_child_limit = budget * 4 + 180
+        per_child_limit = budget * 6 + 300
 
         def finish(mode, i, p, out, log, rc):
             log.close()
